@@ -218,6 +218,11 @@ def attachAll (U : Universe) (s : St) (e : Ent) : List Obj → St × Outcome
     | (s', .ok) => attachAll U s' e cs
     | r => r
 
+/-- the table part of attaching `c` to `e` (world.py:94-100, 143-150): index insert, row insert -/
+def attachTables (U : Universe) (s : St) (e : Ent) (c : Obj) : St :=
+  { s with comps := Dict.set s.comps ((U.objTy c).getD 0) (setAdd (idx s ((U.objTy c).getD 0)) e),
+           ents := Dict.set s.ents e (Dict.set (row s e) ((U.objTy c).getD 0) c) }
+
 /-- first value of `count(n)` that is not a key of `_entities` (world.py:77-81) -/
 def freshFrom (keys : List Ent) : Nat → Nat → Nat
   | 0, n => n
@@ -236,10 +241,7 @@ def createEntity (U : Universe) (s : St) (id? : Option Ent) (cs : List Obj) : St
   let replaced := (Dict.keys (row s e)).filter (fun t => cs.any (fun c => tyOf U c = t))
   match removeTypes U s e replaced with
   | (s, .ok) =>
-    let s := cs.foldl (fun s c =>
-      let t := tyOf U c
-      { s with comps := Dict.set s.comps t (setAdd (idx s t) e),
-               ents := Dict.set s.ents e (Dict.set (row s e) t c) }) s
+    let s := cs.foldl (fun s c => attachTables U s e c) s
     match attachAll U s e cs with
     | (s, o) => (s, o, e)
   | (s, o) => (s, o, e)
@@ -252,10 +254,7 @@ def addComponent (U : Universe) (s : St) (e : Ent) (c : Obj) : St × Outcome :=
       (x.1, x.2.1)
     else (s, Disp.Outcome.ok)
   match r with
-  | (s, .ok) =>
-    let s := { s with comps := Dict.set s.comps t (setAdd (idx s t) e),
-                      ents := Dict.set s.ents e (Dict.set (row s e) t c) }
-    attachEvents U s c (some e)
+  | (s, .ok) => attachEvents U (attachTables U s e c) c (some e)
   | r => r
 
 /-- `delete_entity` (world.py:283-304) -/
@@ -281,11 +280,8 @@ def isPerm (a b : List Nat) : Bool := Proto.sortNats a == Proto.sortNats b
 /-- `_clear_dead_entities` (world.py:306-318); the iteration order of the set is taken from a
 validated hint -/
 def clearDead (U : Universe) (s : St) : St × Outcome :=
-  let (order, hints) := match s.sweepHints with
-    | h :: hs => (h, hs)
-    | [] => (s.dead, [])
-  if !isPerm order s.dead then (s, .badHint)
-  else sweep U { s with dead := [], sweepHints := hints } order
+  if !isPerm (s.sweepHints.head?.getD s.dead) s.dead then (s, .badHint)
+  else sweep U { s with dead := [], sweepHints := s.sweepHints.drop 1 } (s.sweepHints.head?.getD s.dead)
 
 def priority (U : Universe) (s : St) (p : Obj) : Int :=
   (Dict.get? s.prio p).getD (U.cls (tyOf U p)).prio
@@ -305,6 +301,11 @@ def insort (U : Universe) (s : St) (p : Obj) : List Obj :=
   let i := bisectRight keys (priority U s p) (keys.length + 1) 0 keys.length
   s.sorted.take i ++ [p] ++ s.sorted.drop i
 
+/-- the table part of `remove_processor` (world.py:445-450): filter the sorted list by exact
+type, delete the dictionary entry -/
+def dropProc (U : Universe) (s : St) (st : Ty) : St :=
+  { s with sorted := s.sorted.filter (fun p => tyOf U p ≠ st), procs := Dict.erase s.procs st }
+
 /-- `remove_processor` (world.py:429-471) -/
 def removeProcessor (U : Universe) (s : St) (t : Ty) : St × Outcome × Option Obj :=
   match (visit U t).find? (fun st => (Dict.get? s.procs st).isSome) with
@@ -313,8 +314,7 @@ def removeProcessor (U : Universe) (s : St) (t : Ty) : St × Outcome × Option O
     match Dict.get? s.procs st with
     | none => (s, .ok, none)
     | some removed =>
-      let s := { s with sorted := s.sorted.filter (fun p => tyOf U p ≠ st),
-                        procs := Dict.erase s.procs st }
+      let s := dropProc U s st
       match U.mapOf removed with
       | none => (s, .ok, some removed)
       | some m =>
@@ -322,21 +322,24 @@ def removeProcessor (U : Universe) (s : St) (t : Ty) : St × Outcome × Option O
         | (s', .ok) => (removeHandler s' removed, .ok, some removed)
         | (s', o) => (s', o, some removed)
 
+/-- `processor.priority = priority` when a priority is given (world.py:401-402) -/
+def setPrio (s : St) (p : Obj) : Option Int → St
+  | some v => { s with prio := Dict.set s.prio p v }
+  | none => s
+
+/-- insort by priority, dictionary entry, `processor.world = self` (world.py:404-408) -/
+def insertProc (U : Universe) (s : St) (p : Obj) : St :=
+  { s with sorted := insort U s p, procs := Dict.set s.procs (tyOf U p) p,
+           pworld := setAdd s.pworld p }
+
 /-- `add_processor` (world.py:380-427) -/
 def addProcessor (U : Universe) (s : St) (p : Obj) (prio? : Option Int) : St × Outcome :=
-  let t := tyOf U p
-  let r := if (Dict.get? s.procs t).isSome then
-      let x := removeProcessor U s t
+  let r := if (Dict.get? s.procs (tyOf U p)).isSome then
+      let x := removeProcessor U s (tyOf U p)
       (x.1, x.2.1)
     else (s, Disp.Outcome.ok)
   match r with
-  | (s, .ok) =>
-    let s := match prio? with
-      | some v => { s with prio := Dict.set s.prio p v }
-      | none => s
-    let s := { s with sorted := insort U s p, procs := Dict.set s.procs t p,
-                      pworld := setAdd s.pworld p }
-    attachEvents U s p none
+  | (s, .ok) => attachEvents U (insertProc U (setPrio s p prio?) p) p none
   | r => r
 
 def getProcessor (U : Universe) (s : St) (t : Ty) : Option Obj :=
